@@ -59,7 +59,15 @@ func main() {
 	flag.IntVar(&QueryTimeoutMs, "qtimeout", 10000, "per-query solver timeout ms")
 	cpuprof := flag.String("cpuprofile", "", "write cpu profile")
 	selftest := flag.Bool("selftest", false, "run engine self checks and exit")
+	listG := flag.String("listglobals", "", "print the package-level variables declared in the given package directory and exit")
 	flag.Parse()
+	if *listG != "" {
+		if err := listGlobals(*listG); err != nil {
+			fmt.Fprintln(os.Stderr, err)
+			os.Exit(2)
+		}
+		return
+	}
 	if *selftest {
 		initUnicodeTables()
 		if err := selfCheckUnicode(); err != nil {
